@@ -103,6 +103,20 @@ fn build(tier: Tier) -> Vec<Scenario> {
             }
         }
     }
+    // unbounded exploration with sleep sets (every Mazurkiewicz trace) of the smallest jobs
+    if tier == Tier::Thorough || std::env::var("NV_UNBOUNDED").is_ok() {
+        for (name, prog, input) in [
+            ("unbounded-map-1", vec![Map], vec![1i64]),
+            ("unbounded-map-2", vec![Map, Filter], vec![1, 2]),
+            ("unbounded-empty-shuffle", vec![Shuffle], vec![]),
+        ] {
+            let cfg = JobCfg { layout: Layout::Local(1), batch: BatchMode::fixed(2), capacity: 0 };
+            let mut s = program_scenario(&format!("C04/{name}"), &prog, &input, SrcKind::Iter, &cfg, 0, &ORDERS3[..1], format!("{name}:"));
+            s.unbounded = true;
+            s.max_execs = 400_000;
+            out.push(s);
+        }
+    }
     out
 }
 
